@@ -20,7 +20,8 @@ from harness import common
 
 GEN_MODULES = ['table']
 MODEL_TARGETS = ['model/M_Table.vo']
-PROOF_TARGETS = ['proofs/P_Table.vo', 'proofs/P_TableRefine.vo', 'proofs/P_TableThm.vo']
+PROOF_TARGETS = ['proofs/P_Table.vo', 'proofs/P_TableRefine.vo', 'proofs/P_TableThm.vo', 'proofs/P_TableSim5.vo',
+                 'proofs/P_TableFull.vo', 'proofs/P_TableClosed.vo', 'proofs/P_TableRows.vo']
 LEVEL = 'proof'
 RULE = ('operation sequences over all public operations of DataFieldRecordArray (constructor from dict with '
         'keep/conversions/copy, copy, get_selection, set_selection, append, append_field, __setitem__, '
